@@ -38,7 +38,8 @@
 //     structure; every other struct type (time.Time, sync.Mutex, netip.Addr,
 //     dns.Msg, caches, …) is abstract: parameters of such types are dropped and
 //     an expression that reads from them (`req.Question[0].Qtype`) becomes an
-//     extra parameter `e<k>_<name>` holding its value;
+//     extra parameter `e<k>_<name>` holding its value; so does a type assertion
+//     `x.(T)` to a translatable type (the dynamic type is not modelled);
 //   - a *value* of abstract type (local, result of an opaque call, parameter
 //     that is compared with nil) is modelled by what the code can observe of
 //     it: `AbsPtr` (true = non-nil) for pointers, interfaces, maps, slices, …,
@@ -657,6 +658,9 @@ func (c *fctx) expr(e ast.Expr) ex {
 			}
 			return ex{code: r.code, partial: true}
 		}
+		return c.opaqueValue(e)
+	}
+	if _, ok := e.(*ast.TypeAssertExpr); ok {
 		return c.opaqueValue(e)
 	}
 	fail("expression %s (%T)", c.show(e), e)
